@@ -282,8 +282,18 @@ def run_history(ctx, deck, seed, nops, model_every=8):
 MUT_KINDS = ["swap", "del", "dup", "attr", "delattr", "move"]
 
 
+_MODELLED_NS = ("http://schemas.openxmlformats.org/presentationml/2006/main", "http://schemas.openxmlformats.org/drawingml/2006/main",
+                "http://schemas.openxmlformats.org/drawingml/2006/chart", "http://schemas.openxmlformats.org/drawingml/2006/chartDrawing",
+                "http://schemas.openxmlformats.org/drawingml/2006/picture")
+
+
 def mutate(rng, el):
-    nodes = [e for e in el.iter() if isinstance(e.tag, str)]
+    # only elements of the namespaces the schema tables cover are mutated: content admitted by a wildcard (a diagram's
+    # dgm:relIds inside a:graphicData, extension payloads) is open content in the model and strict in lxml - a mutation
+    # there compares nothing
+    nodes = [e for e in el.iter() if isinstance(e.tag, str) and e.tag.startswith("{") and e.tag[1:].split("}")[0] in _MODELLED_NS]
+    if not nodes:
+        return None
     for _ in range(20):
         e = rng.choice(nodes)
         k = rng.choice(MUT_KINDS)
